@@ -120,6 +120,27 @@ fn own(r: Vec<(usize, f64, &Vec<f64>)>) -> Res {
 struct Built {
     cover: CoverTree<Vec<f64>, f64, Met>,
     linear: LinearKNNSearch<Vec<f64>, f64, Met>,
+    /// the largest `max_dist` of any node of the cover tree (serde dump): bounds the `max_dist` of whichever
+    /// node a query pruned, for the margin of the known finding covertree-radius-boundary-rounding
+    maxmd: f64,
+}
+fn tree_max_dist(v: &Value) -> f64 {
+    let own = v["max_dist"].as_f64().unwrap_or(0.0);
+    v["children"].as_array().map(|a| a.iter().map(tree_max_dist).fold(own, f64::max)).unwrap_or(own)
+}
+fn ulp(x: f64) -> f64 {
+    let x = x.abs();
+    if !x.is_finite() {
+        return f64::INFINITY;
+    }
+    f64::from_bits(x.to_bits() + 1) - x
+}
+/// KNOWN_FINDINGS covertree-radius-boundary-rounding: the cover tree's pruning test `d <= r + max_dist` is
+/// evaluated in floating point, so a point ON the boundary (|d - r| <= 8 ulp of the pruning sum) can be
+/// omitted.  `maxmd` over-approximates the pruned node's max_dist by the largest one in the tree.
+const KNOWN_BOUNDARY: &str = "covertree-radius-boundary-rounding";
+fn boundary_margin(r: f64, maxmd: f64) -> f64 {
+    8.0 * ulp(r + maxmd)
 }
 fn build(m: &Met, data: &[Vec<f64>]) -> Result<Built, String> {
     let d1 = data.to_vec();
@@ -131,7 +152,10 @@ fn build(m: &Met, data: &[Vec<f64>]) -> Result<Built, String> {
         (c, l)
     })
     .and_then(|(c, l)| match (c, l) {
-        (Ok(c), Ok(l)) => Ok(Built { cover: c, linear: l }),
+        (Ok(c), Ok(l)) => {
+            let maxmd = serde_json::to_value(&c).map(|v| tree_max_dist(&v["root"])).unwrap_or(f64::INFINITY);
+            Ok(Built { cover: c, linear: l, maxmd })
+        }
         _ => Err("constructor returned Err".to_string()),
     })
 }
@@ -247,24 +271,55 @@ fn check_radius(out: &mut Out, m: &Met, data: &[Vec<f64>], b: &Built, cover: boo
             return out.fail(oracle, "entry does not carry its true distance / point", input);
         }
     }
-    let scale = all.iter().cloned().fold(r.max(1.0), f64::max);
+    // The exhaustive scan must be exact.  For the cover tree the only tolerated deviation is the known
+    // finding: a point ON the boundary (within 8 ulp of the pruning sum) that the exhaustive scan returns
+    // is omitted; it is routed to the known id and counted.  Where the arithmetic is provably exact
+    // (`exact_arith`) nothing is tolerated.  Minkowski: the oracle's own distance (powf) is uncertain
+    // within MARGIN, such points are excluded (and counted) unless they are an instance of the finding.
     let loose = cover && !exact_arith(m, data, q, fam);
+    let margin = boundary_margin(r, b.maxmd);
+    let mut linear_has: Option<Vec<bool>> = None;
     for i in 0..n {
-        let near_tie = (!m.exact() && (all[i] - r).abs() <= MARGIN * r.max(1.0)) || (loose && (all[i] - r).abs() <= MARGIN * scale);
-        if near_tie {
-            out.count("search:excluded-near-tie");
-            if m.exact() && (all[i] <= r) != seen[i] {
-                out.count("observed:cover-radius-boundary-point-missed-by-rounding");
-            }
+        let inside = all[i] <= r;
+        let oracle_unsure = !m.exact() && (all[i] - r).abs() <= MARGIN * r.max(1.0);
+        if inside == seen[i] && !oracle_unsure {
             continue;
         }
-        if (all[i] <= r) != seen[i] {
-            let mut w = input.clone();
-            w["point"] = json!(i);
-            w["dist"] = json!(all[i]);
-            w["returned"] = json!(seen[i]);
-            return out.fail(oracle, "radius result is not exactly the points with distance <= r", w);
+        if loose && !seen[i] {
+            // candidate for the known finding: on the boundary by the implementation's own distance, and
+            // returned by the exhaustive scan
+            let d_impl = m.distance(&data[i], q);
+            if d_impl <= r && (d_impl - r).abs() <= margin {
+                if linear_has.is_none() {
+                    let mut v = vec![false; n];
+                    if let Ok(Some(lr)) = do_radius(b, false, q, r) {
+                        for (j, _, _) in &lr {
+                            if *j < n {
+                                v[*j] = true;
+                            }
+                        }
+                    }
+                    linear_has = Some(v);
+                }
+                if linear_has.as_ref().map(|v| v[i]).unwrap_or(false) {
+                    out.known(KNOWN_BOUNDARY, "CoverTree::find_radius omitted a point whose distance equals the radius up to rounding of the pruning sum (the exhaustive scan returns it)");
+                    out.count("known:cover-radius-boundary-omission");
+                    out.count(&format!("known:cover-radius-boundary-omission:{}", if d_impl == r { "d==r" } else { "d<r-within-8ulp" }));
+                    out.count(&format!("known:cover-radius-boundary-omission:family={}", fam));
+                    continue;
+                }
+            }
         }
+        if oracle_unsure {
+            out.count("search:excluded-near-tie");
+            continue;
+        }
+        let mut w = input.clone();
+        w["point"] = json!(i);
+        w["dist"] = json!(all[i]);
+        w["returned"] = json!(seen[i]);
+        w["boundary_margin"] = json!(margin);
+        return out.fail(oracle, "radius result is not exactly the points with distance <= r", w);
     }
 }
 
@@ -937,6 +992,16 @@ fn search_dataset(out: &mut Out, rng: &mut Rng, m: &Met, data: &[Vec<f64>], fam:
         }
         let mut radii = gen_radii(rng, m, data, &q);
         radii.push(*rng.pick(&[0.0, -1.0, -1e-9]));
+        // radii EXACTLY equal (by the implementation's own metric) to the query's distance to a data point:
+        // the boundary point must be returned (exhaustive scan: always; cover tree: known finding
+        // covertree-radius-boundary-rounding when it is omitted)
+        for _ in 0..3 {
+            let d = m.distance(rng.pick(data), &q);
+            if d > 0.0 && d.is_finite() {
+                radii.push(d);
+                out.count("search:radius-exactly-a-realised-distance");
+            }
+        }
         for &r in &radii {
             check_radius(out, m, data, &b, true, &q, r, fam);
             check_radius(out, m, data, &b, false, &q, r, fam);
@@ -1173,6 +1238,20 @@ fn main() {
                     corr_est(&mut out, &c, &s, &p);
                 }
             }
+        }
+    }
+
+    // ---- known finding covertree-radius-boundary-rounding: its witness on every run (a radius equal, bit for
+    // bit, to the distance of a data point; the pruning sum r + max_dist is rounded).  check_radius routes an
+    // omission of the boundary point to the known id; the exhaustive scan must return it. ----
+    {
+        let data = vec![vec![0.0, 4.0], vec![0.0, 0.0], vec![1.0, 3.0], vec![0.0, 2.0]];
+        let q = vec![4.0, 0.0];
+        let r = 4.242640687119285; // = d(q, data[2]) = sqrt(18)
+        out.count("search:family=corpus-radius-boundary");
+        if let Ok(b) = build(&Met::E, &data) {
+            check_radius(&mut out, &Met::E, &data, &b, true, &q, r, "corpus-radius-boundary");
+            check_radius(&mut out, &Met::E, &data, &b, false, &q, r, "corpus-radius-boundary");
         }
     }
 
